@@ -58,7 +58,7 @@ public:
 
   double pProb(double x) const { return x < value_ ? 0 : 1; }
 
-  double Expectation(double a) const { return a < value_ ? 0 : 1; }
+  double Expectation(double a) const { return a < value_ ? 0 : value_; }
 
   void restrictToConstraint(const ConstraintInterface& c);
 
